@@ -66,7 +66,8 @@ pub fn run_spaces(ctx: &Ctx, prop: &'static str, spaces: &[Space]) -> JobOut {
 /// Deviation-bounded family: a default stream with k deviations.
 pub struct Family {
     pub cfg: Cfg,
-    pub base: Vec<Op>,
+    /// shared between all members of a family (a private copy per member exhausted memory for period 1024)
+    pub base: std::sync::Arc<Vec<Op>>,
     pub base_name: &'static str,
     /// (position, replacement op)
     pub deviations: Vec<(usize, Op)>,
@@ -75,7 +76,7 @@ pub struct Family {
 }
 
 pub fn run_family(prop: &str, fam: &Family, out: &mut JobOut) {
-    let mut ops = fam.base.clone();
+    let mut ops: Vec<Op> = fam.base.as_ref().clone();
     for (p, op) in &fam.deviations {
         if *p < ops.len() {
             ops[*p] = *op;
@@ -128,26 +129,28 @@ pub fn run_family(prop: &str, fam: &Family, out: &mut JobOut) {
     }
 }
 
-pub fn base_patterns_scalar(len: usize) -> Vec<(&'static str, Vec<Op>)> {
-    vec![
+pub fn base_patterns_scalar(len: usize) -> Vec<(&'static str, std::sync::Arc<Vec<Op>>)> {
+    let v: Vec<(&'static str, Vec<Op>)> = vec![
         ("ramp-up", (0..len).map(|i| Op::S(1.0 + i as f64)).collect()),
         ("ramp-down", (0..len).map(|i| Op::S((len - i) as f64 * 0.5)).collect()),
         ("alternating", (0..len).map(|i| Op::S(if i % 2 == 0 { 1.0 + (i % 3) as f64 } else { -1.0 - (i % 5) as f64 })).collect()),
         ("constant", (0..len).map(|_| Op::S(5.0)).collect()),
-    ]
+    ];
+    v.into_iter().map(|(n, o)| (n, std::sync::Arc::new(o))).collect()
 }
 
-pub fn base_patterns_pos(len: usize) -> Vec<(&'static str, Vec<Op>)> {
-    vec![
+pub fn base_patterns_pos(len: usize) -> Vec<(&'static str, std::sync::Arc<Vec<Op>>)> {
+    let v: Vec<(&'static str, Vec<Op>)> = vec![
         ("ramp-up", (0..len).map(|i| Op::S(1.0 + i as f64)).collect()),
         ("ramp-down", (0..len).map(|i| Op::S((len - i) as f64 * 0.5 + 1.0)).collect()),
         ("zigzag", (0..len).map(|i| Op::S(if i % 2 == 0 { 3.0 + (i % 3) as f64 } else { 2.0 + (i % 5) as f64 * 0.5 })).collect()),
         ("constant", (0..len).map(|_| Op::S(5.0)).collect()),
-    ]
+    ];
+    v.into_iter().map(|(n, o)| (n, std::sync::Arc::new(o))).collect()
 }
 
-pub fn base_patterns_bars(len: usize) -> Vec<(&'static str, Vec<Op>)> {
-    let mk = |f: &dyn Fn(usize) -> Bar| -> Vec<Op> { (0..len).map(|i| Op::B(f(i))).collect() };
+pub fn base_patterns_bars(len: usize) -> Vec<(&'static str, std::sync::Arc<Vec<Op>>)> {
+    let mk = |f: &dyn Fn(usize) -> Bar| -> std::sync::Arc<Vec<Op>> { std::sync::Arc::new((0..len).map(|i| Op::B(f(i))).collect()) };
     vec![
         ("trend-up", mk(&|i| {
             let x = 10.0 + i as f64;
